@@ -658,6 +658,152 @@ theorem nullLoop_body_eq_model (cw : String → Nat) (caps : Caps) (L : List Cel
     rw [show skip + 6 = (skip + 5) + 1 from rfl]; simp [exec]
   simp [exec, List.takeWhile, List.dropWhile, hx1, a1, a2, a3, a4, a5, a6, b1, b2, b3, b4, b5, b6]
 
+/-! ### the colour and underline blocks, line by line -/
+
+open VaxisModel.Model.Color
+
+def fgBlock : List Line := blockAt G 2 "if" "cursor.Foreground!=next.Foreground"
+def bgBlock : List Line := blockAt G 2 "if" "cursor.Background!=next.Background"
+def ulBlock : List Line := blockAt G 2 "if" "vx.caps.styledUnderlines"
+def ulStyleBlock : List Line := blockAt G 2 "if" "cursor.UnderlineStyle!=next.UnderlineStyle"
+
+theorem colour_progs :
+    prog fgBlock = [(2, .if_, .fgDelta), (3, .stmt, .colAssign), (3, .stmt, .psParams), (3, .if_, .notRgb), (4, .stmt, .psAsIndex),
+      (3, .switch_, .lenPs), (4, .case_, .ret0), (5, .stmt, .wrFgReset), (4, .case_, .lit1), (5, .switch_, .none_), (6, .case_, .ps0lt8),
+      (7, .stmt, .wrFgSet), (6, .case_, .ps0lt16), (7, .stmt, .wrFgBright), (6, .default_, .none_), (7, .stmt, .wrFgIndex),
+      (4, .case_, .lit3), (5, .stmt, .wrFgRGB)] ∧
+    prog bgBlock = [(2, .if_, .bgDelta), (3, .stmt, .colAssign), (3, .stmt, .psParams), (3, .if_, .notRgb), (4, .stmt, .psAsIndex),
+      (3, .switch_, .lenPs), (4, .case_, .ret0), (5, .stmt, .wrBgReset), (4, .case_, .lit1), (5, .switch_, .none_), (6, .case_, .ps0lt8),
+      (7, .stmt, .wrBgSet), (6, .case_, .ps0lt16), (7, .stmt, .wrBgBright), (6, .default_, .none_), (7, .stmt, .wrBgIndex),
+      (4, .case_, .lit3), (5, .stmt, .wrBgRGB)] ∧
+    prog ulBlock = [(2, .if_, .ulDelta), (3, .if_, .ulChanged), (4, .stmt, .colAssign), (4, .stmt, .psParams), (4, .if_, .notRgb),
+      (5, .stmt, .psAsIndex), (4, .switch_, .lenPs), (5, .case_, .ret0), (6, .stmt, .wrUlReset), (5, .case_, .lit1), (6, .stmt, .wrUlIndex),
+      (5, .case_, .lit3), (6, .stmt, .wrUlRGB)] ∧
+    prog ulStyleBlock = [(2, .if_, .ulStyleDelta), (3, .stmt, .ulStyleAssign), (3, .switch_, .ulDelta), (4, .case_, .litTrue),
+      (5, .stmt, .wrUlStyleSet), (4, .case_, .litFalse), (5, .switch_, .ulStyleVar), (6, .case_, .litUnderlineOff),
+      (7, .stmt, .wrUnderlineReset), (6, .default_, .none_), (7, .stmt, .wrUnderlineSet)] := by
+  decide +kernel
+
+/-- **fg_body_eq_model / bg_body_eq_model / ul_body_eq_model / ulStyle_body_eq_model**: the colour and underline
+    blocks executed line by line from the extracted text — `ps := c.Params()` (through `asIndex` without RGB), the
+    `switch len(ps)` with its inner `switch` on `ps[0]`, the writes by sequence name — write exactly what the
+    statement the written-cell path runs in their place (`prune`) writes: the macro atoms are the interpretation of
+    their blocks.  (The attribute block: `Props.C01Facts.attrToks_from_source`.) -/
+theorem fg_body_eq_model (cw : String → Nat) (caps : Caps) (pen : Style) (n : Cell) (o : List Tok) :
+    (run cw caps fgBlock { cursor := pen, next := n, out := o, colSel := 0 }).out = o ++ (if pen.fg ≠ n.style.fg then colorToks caps 30 n.style.fg else []) ∧
+    (run cw caps fgBlock { cursor := pen, next := n, out := o, colSel := 0 }).unknown = false := by
+  have hl : fgBlock.length = 18 := by decide +kernel
+  unfold run
+  rw [colour_progs.1, hl]
+  by_cases hne : pen.fg = n.style.fg
+  · simp [exec, evalG, List.takeWhile, List.dropWhile, hne]
+  · unfold colorToks effParams
+    cases hrgb : caps.rgb
+    · generalize hps : params (asIndex n.style.fg) = ps
+      rcases ps with _ | ⟨a, _ | ⟨b, _ | ⟨c, _ | ⟨d, r⟩⟩⟩⟩
+      · simp [exec, execArms, evalG, evalS, tagMatch, List.takeWhile, List.dropWhile, hne, hrgb, hps, colorToksP, ulColorToksP]
+      · by_cases h8 : a < 8
+        · simp [exec, execArms, evalG, evalS, tagMatch, List.takeWhile, List.dropWhile, hne, hrgb, hps, colorToksP, ulColorToksP, h8]
+        · by_cases h16 : a < 16
+          · simp [exec, execArms, evalG, evalS, tagMatch, List.takeWhile, List.dropWhile, hne, hrgb, hps, colorToksP, ulColorToksP, h8, h16]
+          · simp [exec, execArms, evalG, evalS, tagMatch, List.takeWhile, List.dropWhile, hne, hrgb, hps, colorToksP, ulColorToksP, h8, h16]
+      · simp [exec, execArms, evalG, evalS, tagMatch, List.takeWhile, List.dropWhile, hne, hrgb, hps, colorToksP, ulColorToksP]
+      · simp [exec, execArms, evalG, evalS, tagMatch, List.takeWhile, List.dropWhile, hne, hrgb, hps, colorToksP, ulColorToksP]
+      · simp [exec, execArms, evalG, evalS, tagMatch, List.takeWhile, List.dropWhile, hne, hrgb, hps, colorToksP, ulColorToksP]
+    · generalize hps : params n.style.fg = ps
+      rcases ps with _ | ⟨a, _ | ⟨b, _ | ⟨c, _ | ⟨d, r⟩⟩⟩⟩
+      · simp [exec, execArms, evalG, evalS, tagMatch, List.takeWhile, List.dropWhile, hne, hrgb, hps, colorToksP, ulColorToksP]
+      · by_cases h8 : a < 8
+        · simp [exec, execArms, evalG, evalS, tagMatch, List.takeWhile, List.dropWhile, hne, hrgb, hps, colorToksP, ulColorToksP, h8]
+        · by_cases h16 : a < 16
+          · simp [exec, execArms, evalG, evalS, tagMatch, List.takeWhile, List.dropWhile, hne, hrgb, hps, colorToksP, ulColorToksP, h8, h16]
+          · simp [exec, execArms, evalG, evalS, tagMatch, List.takeWhile, List.dropWhile, hne, hrgb, hps, colorToksP, ulColorToksP, h8, h16]
+      · simp [exec, execArms, evalG, evalS, tagMatch, List.takeWhile, List.dropWhile, hne, hrgb, hps, colorToksP, ulColorToksP]
+      · simp [exec, execArms, evalG, evalS, tagMatch, List.takeWhile, List.dropWhile, hne, hrgb, hps, colorToksP, ulColorToksP]
+      · simp [exec, execArms, evalG, evalS, tagMatch, List.takeWhile, List.dropWhile, hne, hrgb, hps, colorToksP, ulColorToksP]
+
+theorem bg_body_eq_model (cw : String → Nat) (caps : Caps) (pen : Style) (n : Cell) (o : List Tok) :
+    (run cw caps bgBlock { cursor := pen, next := n, out := o, colSel := 1 }).out = o ++ (if pen.bg ≠ n.style.bg then colorToks caps 40 n.style.bg else []) ∧
+    (run cw caps bgBlock { cursor := pen, next := n, out := o, colSel := 1 }).unknown = false := by
+  have hl : bgBlock.length = 18 := by decide +kernel
+  unfold run
+  rw [colour_progs.2.1, hl]
+  by_cases hne : pen.bg = n.style.bg
+  · simp [exec, evalG, List.takeWhile, List.dropWhile, hne]
+  · unfold colorToks effParams
+    cases hrgb : caps.rgb
+    · generalize hps : params (asIndex n.style.bg) = ps
+      rcases ps with _ | ⟨a, _ | ⟨b, _ | ⟨c, _ | ⟨d, r⟩⟩⟩⟩
+      · simp [exec, execArms, evalG, evalS, tagMatch, List.takeWhile, List.dropWhile, hne, hrgb, hps, colorToksP, ulColorToksP]
+      · by_cases h8 : a < 8
+        · simp [exec, execArms, evalG, evalS, tagMatch, List.takeWhile, List.dropWhile, hne, hrgb, hps, colorToksP, ulColorToksP, h8]
+        · by_cases h16 : a < 16
+          · simp [exec, execArms, evalG, evalS, tagMatch, List.takeWhile, List.dropWhile, hne, hrgb, hps, colorToksP, ulColorToksP, h8, h16]
+          · simp [exec, execArms, evalG, evalS, tagMatch, List.takeWhile, List.dropWhile, hne, hrgb, hps, colorToksP, ulColorToksP, h8, h16]
+      · simp [exec, execArms, evalG, evalS, tagMatch, List.takeWhile, List.dropWhile, hne, hrgb, hps, colorToksP, ulColorToksP]
+      · simp [exec, execArms, evalG, evalS, tagMatch, List.takeWhile, List.dropWhile, hne, hrgb, hps, colorToksP, ulColorToksP]
+      · simp [exec, execArms, evalG, evalS, tagMatch, List.takeWhile, List.dropWhile, hne, hrgb, hps, colorToksP, ulColorToksP]
+    · generalize hps : params n.style.bg = ps
+      rcases ps with _ | ⟨a, _ | ⟨b, _ | ⟨c, _ | ⟨d, r⟩⟩⟩⟩
+      · simp [exec, execArms, evalG, evalS, tagMatch, List.takeWhile, List.dropWhile, hne, hrgb, hps, colorToksP, ulColorToksP]
+      · by_cases h8 : a < 8
+        · simp [exec, execArms, evalG, evalS, tagMatch, List.takeWhile, List.dropWhile, hne, hrgb, hps, colorToksP, ulColorToksP, h8]
+        · by_cases h16 : a < 16
+          · simp [exec, execArms, evalG, evalS, tagMatch, List.takeWhile, List.dropWhile, hne, hrgb, hps, colorToksP, ulColorToksP, h8, h16]
+          · simp [exec, execArms, evalG, evalS, tagMatch, List.takeWhile, List.dropWhile, hne, hrgb, hps, colorToksP, ulColorToksP, h8, h16]
+      · simp [exec, execArms, evalG, evalS, tagMatch, List.takeWhile, List.dropWhile, hne, hrgb, hps, colorToksP, ulColorToksP]
+      · simp [exec, execArms, evalG, evalS, tagMatch, List.takeWhile, List.dropWhile, hne, hrgb, hps, colorToksP, ulColorToksP]
+      · simp [exec, execArms, evalG, evalS, tagMatch, List.takeWhile, List.dropWhile, hne, hrgb, hps, colorToksP, ulColorToksP]
+
+theorem ul_body_eq_model (cw : String → Nat) (caps : Caps) (pen : Style) (n : Cell) (o : List Tok) :
+    (run cw caps ulBlock { cursor := pen, next := n, out := o, colSel := 2 }).out = o ++ (if caps.styledUnderlines ∧ pen.ul ≠ n.style.ul then ulColorToks caps n.style.ul else []) ∧
+    (run cw caps ulBlock { cursor := pen, next := n, out := o, colSel := 2 }).unknown = false := by
+  have hl : ulBlock.length = 13 := by decide +kernel
+  unfold run
+  rw [colour_progs.2.2.1, hl]
+  cases hsu : caps.styledUnderlines
+  · simp [exec, evalG, List.takeWhile, List.dropWhile, hsu]
+  · by_cases hne : pen.ul = n.style.ul
+    · simp [exec, evalG, List.takeWhile, List.dropWhile, hsu, hne]
+    · unfold ulColorToks effParams
+      cases hrgb : caps.rgb
+      · generalize hps : params (asIndex n.style.ul) = ps
+        rcases ps with _ | ⟨a, _ | ⟨b, _ | ⟨c, _ | ⟨d, r⟩⟩⟩⟩ <;>
+          simp [exec, execArms, evalG, evalS, tagMatch, List.takeWhile, List.dropWhile, hne, hrgb, hps, colorToksP, ulColorToksP, hsu]
+      · generalize hps : params n.style.ul = ps
+        rcases ps with _ | ⟨a, _ | ⟨b, _ | ⟨c, _ | ⟨d, r⟩⟩⟩⟩ <;>
+          simp [exec, execArms, evalG, evalS, tagMatch, List.takeWhile, List.dropWhile, hne, hrgb, hps, colorToksP, ulColorToksP, hsu]
+
+theorem ulStyle_body_eq_model (cw : String → Nat) (caps : Caps) (pen : Style) (n : Cell) (o : List Tok) :
+    (run cw caps ulStyleBlock { cursor := pen, next := n, out := o }).out =
+      o ++ (if pen.ulStyle ≠ n.style.ulStyle then
+              (if caps.styledUnderlines then [Tok.sgr [[4, n.style.ulStyle]]]
+               else if n.style.ulStyle = 0 then [Tok.sgr [[24]]] else [Tok.sgr [[4]]])
+            else []) ∧
+    (run cw caps ulStyleBlock { cursor := pen, next := n, out := o }).unknown = false := by
+  have hl : ulStyleBlock.length = 11 := by decide +kernel
+  unfold run
+  rw [colour_progs.2.2.2, hl]
+  by_cases hne : pen.ulStyle = n.style.ulStyle
+  · simp [exec, evalG, List.takeWhile, List.dropWhile, hne]
+  · cases hsu : caps.styledUnderlines
+    · by_cases h0 : n.style.ulStyle = 0
+      · have hne' : ¬ pen.ulStyle = 0 := by rw [h0] at hne; exact hne
+        simp [exec, execArms, evalG, evalS, tagMatch, List.takeWhile, List.dropWhile, hne', hsu, h0]
+      · simp [exec, execArms, evalG, evalS, tagMatch, List.takeWhile, List.dropWhile, hne, hsu, h0]
+    · simp [exec, execArms, evalG, evalS, tagMatch, List.takeWhile, List.dropWhile, hne, hsu]
+
+/-- The statements `prune` puts in place of the four blocks are these blocks, executed. -/
+theorem macro_atoms_are_blocks (cw : String → Nat) (caps : Caps) (pen : Style) (n : Cell) (o : List Tok) :
+    (evalS cw caps .fgDelta { cursor := pen, next := n, out := o }).out = (run cw caps fgBlock { cursor := pen, next := n, out := o, colSel := 0 }).out ∧
+    (evalS cw caps .bgDelta { cursor := pen, next := n, out := o }).out = (run cw caps bgBlock { cursor := pen, next := n, out := o, colSel := 1 }).out ∧
+    (evalS cw caps .ulDelta { cursor := pen, next := n, out := o }).out = (run cw caps ulBlock { cursor := pen, next := n, out := o, colSel := 2 }).out ∧
+    (evalS cw caps .ulStyleDelta { cursor := pen, next := n, out := o }).out = (run cw caps ulStyleBlock { cursor := pen, next := n, out := o }).out := by
+  rw [(fg_body_eq_model cw caps pen n o).1, (bg_body_eq_model cw caps pen n o).1, (ul_body_eq_model cw caps pen n o).1,
+    (ulStyle_body_eq_model cw caps pen n o).1]
+  simp [evalS]
+
+
 /-! ### the order of the blocks -/
 
 /-- The body of `for col := 0; col < len(row); col += 1 { … }`. -/
